@@ -7,3 +7,6 @@ import Rp2.Props.C12
 #print axioms Rp2.C12.in_table_required
 #print axioms Rp2.C12.cli_fault_rejected
 #print axioms Rp2.C12.type_table_agrees
+#print axioms Rp2.C12.config_accepted_is_valid
+#print axioms Rp2.C12.config_fault_rejected
+#print axioms Rp2.C12.header_column_table_agrees
